@@ -38,10 +38,12 @@ def roundtrip_ok(S):
 
 
 def python_roundtrip_ok(S):
-    from vf.common import parse_s, serialize_python, exec_module, classes_of, get_object_classes, ObjectMeta
+    from vf.common import parse_s, serialize_python, exec_generated, classes_of, get_object_classes, ObjectMeta
 
     E1 = parse_s(S)
-    ns = exec_module(serialize_python(E1))
+    ns = exec_generated(serialize_python(E1))
+    if ns is None:
+        return False
     gen = classes_of(ns)
     parsed = {c.__name__: c for c in get_object_classes(E1)}
     if set(gen) != set(parsed):
